@@ -314,6 +314,21 @@ elif what == "history":
     scf = SCF(at, xc="pbe", opt={"pccg": 2}, etol=1e-12)
     scf.run()
     energies("hist.2k", scf)
+    # a BUILT Atoms object handed to SCF: fresh, or after the same object was already used for two other runs (smeared fillings, k-points): what a run
+    # writes into its own copy of the atoms (fillings, Fermi level, k-point data) must not reach the user's object and through it a later run
+    cell = Atoms(["Li", "Li"], [[0.0, 0.0, 0.0], [2.7, 2.8, 2.9]], ecut=4, a=[[5.6, 0.2, 0.0], [0.0, 5.8, 0.1], [0.1, 0.0, 5.7]])
+    cell.kpts.kmesh = [2, 1, 1]
+    cell.occ.smearing = 0.01
+    cell.occ.bands = 4
+    cell.build()
+    if args.get("prelude"):
+        SCF(cell, xc="lda,vwn", opt={"pccg": 4}, etol=1e-12, guess="pseudo").run()
+        SCF(cell, xc="lda,pw", opt={"sd": 3}, etol=1e-12, guess="random").run()
+    scf = SCF(cell, xc="lda,vwn", opt={"pccg": 3}, etol=1e-12, guess="pseudo")
+    scf.run()
+    energies("hist.reused_atoms", scf)
+    bits("hist.reused_atoms.f", np.asarray(scf.atoms.occ.f))
+    bits("hist.reused_atoms.user_object_f", np.asarray(cell.occ.f))
     bits("hist.pseudo_uniform", pseudo_uniform((2, 7, 3), seed=1234))
     bits("hist.guess_pseudo", np.concatenate([np.asarray(w).ravel() for w in guess_pseudo(scf, seed=7)]))
     bits("hist.guess_random", np.concatenate([np.asarray(w).ravel() for w in guess_random(scf, seed=7)]))
@@ -420,6 +435,14 @@ elif what == "end2end":
     scf3 = SCF(lih(), opt={"sd": 2}, etol=1e-12, pot="coulomb_lr")
     scf3.run()
     energies("coulomb_lr", scf3)
+    # six k-points with different contributions: a reduction over the k-points whose order depended on threads / completion order would change bits
+    at4 = lih(unrestricted=True)
+    at4.kpts.kmesh = [3, 2, 1]
+    at4.kpts.kshift = [0.05, 0.1, 0.0]
+    scf4 = SCF(at4, xc=":MGGA_X_TPSS,:MGGA_C_TPSS" if args.get("mgga") else "pbe", opt={"pccg": 3}, etol=1e-12, guess="pseudo")
+    scf4.run()
+    energies("six_kpoints", scf4)
+    bits("n_six_kpoints", np.asarray(scf4.n))
     bits("pseudo_uniform", pseudo_uniform((2, 4, 3), seed=1234))
     bits("guess_random", np.concatenate([np.asarray(w).ravel() for w in guess_random(scf)]))
     bits("guess_pseudo", np.concatenate([np.asarray(w).ravel() for w in guess_pseudo(scf)]))
